@@ -329,17 +329,17 @@ func PanicKind(msg string) string {
 }
 
 // PanicKey is the violation key of a panic: the goa function it started in
-// (line numbers move with every unrelated commit, function names do not), the
-// kind of panic and the dsl function at the top of the program stack.
-func PanicKey(stack, repo, msg, top string) (key, site string) {
+// (line numbers move with every unrelated commit, function names do not) and
+// the kind of panic. The dsl function at the top of the program stack is NOT
+// part of the key: one defect deep in expr is reached through many dsl
+// functions and would otherwise need one known-finding entry per entry point;
+// it is reported in the text and the witness instead.
+func PanicKey(stack, repo, msg string) (key, site string) {
 	site, fn := PanicSite(stack, repo)
 	if fn == "" {
 		fn = "unknown"
 	}
-	if top == "" {
-		top = "-"
-	}
-	return "panic:" + fn + ":" + PanicKind(msg) + ":" + top, site
+	return "panic:" + fn + ":" + PanicKind(msg), site
 }
 
 func shortFunc(f string) string {
@@ -357,6 +357,12 @@ var closureRe = regexp.MustCompile(`(\.func\d+)+(\.\d+)*$`)
 // the 12 innermost goa frames, so that every entry point of a recursion cycle
 // gives the same name), and the dsl function highest on that stack.
 func FirstRepoFrame(dump, repo string) (fn, dslFn string) {
+	fn, dslFn, _ = RepoFrames(dump, repo)
+	return
+}
+
+// RepoFrames is FirstRepoFrame plus the innermost goa function as printed.
+func RepoFrames(dump, repo string) (fn, dslFn, innermost string) {
 	prefix := strings.TrimSuffix(repo, "/") + "/"
 	blocks := strings.Split(dump, "\n\n")
 	for _, b := range blocks {
@@ -367,6 +373,9 @@ func FirstRepoFrame(dump, repo string) (fn, dslFn string) {
 		for _, f := range frames(b) {
 			if !strings.HasPrefix(f.File, prefix) {
 				continue
+			}
+			if n == 0 {
+				innermost = shortFunc(f.Func)
 			}
 			if n < 12 {
 				name := closureRe.ReplaceAllString(shortFunc(f.Func), "")
@@ -389,7 +398,7 @@ func FirstRepoFrame(dump, repo string) (fn, dslFn string) {
 			return
 		}
 	}
-	return "unknown", ""
+	return "unknown", "", "unknown"
 }
 
 func tailS(s string, n int) string {
